@@ -131,6 +131,8 @@ type Action struct {
 	// Forced actions are performed as soon as they are enabled, without
 	// consulting the tape (used by enumerated fault placements).
 	Forced bool
+	// LastResort actions are offered only when nothing else is enabled.
+	LastResort bool
 }
 
 type parked struct {
@@ -176,6 +178,9 @@ type Sim struct {
 	Stickiness int             // percent: prefer continuing the task that ran last
 	ParkSites  map[string]bool // site classes at which gates park (others only note)
 	OnEvent    func(ev *Event) // scheduler-side observer (runs on the scheduler)
+	// LowPrio lists sites whose parked tasks are released only when nothing
+	// else is enabled (polling loops).
+	LowPrio map[string]bool
 
 	pub      chan gmsg
 	names    map[uint64]string // goroutine id -> logical task name
@@ -208,8 +213,8 @@ func Cur() *Sim { return cur.Load() }
 func NewSim(t *Tape) *Sim {
 	return &Sim{
 		Tape: t, StepCap: 2000, Stickiness: 50,
-		ParkSites: map[string]bool{},
-		names:     map[uint64]string{}, ordinal: map[string]int{},
+		ParkSites: map[string]bool{}, LowPrio: map[string]bool{},
+		names: map[uint64]string{}, ordinal: map[string]int{},
 		parked: map[string]*parked{}, Acts: map[string]int{}, finished: map[string]bool{},
 	}
 }
@@ -273,6 +278,9 @@ func (s *Sim) Gate(nameHint, site, info string) {
 	}
 }
 
+// Park is a gate that parks regardless of ParkSites (polling loops must yield).
+func (s *Sim) Park(nameHint, site, info string) { s.publish(kPark, nameHint, site, info, true) }
+
 // Note records an event without parking.
 func (s *Sim) Note(nameHint, site, info string) { s.publish(kNote, nameHint, site, info, false) }
 
@@ -320,6 +328,12 @@ func (s *Sim) emit(ev Event) {
 }
 
 func (s *Sim) drain() {
+	// Everything published since the last decision belongs to one step. Which
+	// of several goroutines woken in that step ran first is up to the Go
+	// runtime (time-slice preemption can reorder them), so the step's messages
+	// are put into a canonical order: by goroutine, each goroutine's own
+	// messages in program order.
+	var batch []gmsg
 	for {
 		var m gmsg
 		hideSync()
@@ -327,21 +341,70 @@ func (s *Sim) drain() {
 		case m = <-s.pub:
 		default:
 			showSync()
-			return
+			goto sorted
 		}
 		showSync()
-		hint, site, info := takeMsg(&m)
-		name := s.nameFor(m.gid, hint, site)
-		switch m.kind {
+		batch = append(batch, m)
+	}
+sorted:
+	if len(batch) == 0 {
+		return
+	}
+	type item struct {
+		m                gmsg
+		name, site, info string
+	}
+	items := make([]item, len(batch))
+	// goroutines the scheduler already knows keep their names; new ones are
+	// named in the order of their (hint, site), not of arrival
+	var fresh []int
+	for i := range batch {
+		hint, site, info := takeMsg(&batch[i])
+		items[i] = item{m: batch[i], site: site, info: info}
+		if n, ok := s.names[batch[i].gid]; ok {
+			items[i].name = n
+		} else {
+			items[i].name = "\x00" + hint
+			fresh = append(fresh, i)
+		}
+	}
+	if len(fresh) > 0 {
+		seen := map[uint64]bool{}
+		var order []int
+		for _, i := range fresh {
+			if !seen[items[i].m.gid] {
+				seen[items[i].m.gid] = true
+				order = append(order, i)
+			}
+		}
+		sort.SliceStable(order, func(a, b int) bool {
+			ia, ib := items[order[a]], items[order[b]]
+			if ia.name != ib.name {
+				return ia.name < ib.name
+			}
+			return ia.site < ib.site
+		})
+		for _, i := range order {
+			hint := items[i].name[1:]
+			s.nameFor(items[i].m.gid, hint, items[i].site)
+		}
+		for _, i := range fresh {
+			items[i].name = s.names[items[i].m.gid]
+		}
+	}
+	sort.SliceStable(items, func(a, b int) bool { return items[a].name < items[b].name })
+	for _, it := range items {
+		name, site, info := it.name, it.site, it.info
+		switch it.m.kind {
 		case kPark:
-			s.parked[name] = &parked{task: name, site: site, info: info, wake: m.wake}
+			s.parked[name] = &parked{task: name, site: site, info: info, wake: it.m.wake}
 			s.emit(Event{Step: s.Step, Task: name, Kind: "park", Site: site, Info: info})
 		case kNote:
 			s.emit(Event{Step: s.Step, Task: name, Kind: "note", Site: site, Info: info})
 		case kDone:
 			s.live--
 			s.finished[name] = true
-			delete(s.names, m.gid)
+			delete(s.names, it.m.gid)
 			s.emit(Event{Step: s.Step, Task: name, Kind: "done", Site: site})
 		}
 	}
@@ -369,18 +432,32 @@ func (s *Sim) enabled() []choice {
 	sort.Strings(names)
 	// the task that ran last comes first: raw tape value 0 = "no context switch"
 	for _, n := range names {
-		if n == s.last {
+		if n == s.last && !s.LowPrio[s.parked[n].site] {
 			cs = append(cs, choice{name: n, p: s.parked[n]})
 		}
 	}
 	for _, n := range names {
-		if n != s.last {
+		if n != s.last && !s.LowPrio[s.parked[n].site] {
 			cs = append(cs, choice{name: n, p: s.parked[n]})
 		}
 	}
 	for _, a := range s.actions {
-		if a.Enabled == nil || a.Enabled() {
+		if !a.LastResort && (a.Enabled == nil || a.Enabled()) {
 			cs = append(cs, choice{name: "env:" + a.Name, a: a})
+		}
+	}
+	if len(cs) == 0 {
+		for _, n := range names {
+			if s.LowPrio[s.parked[n].site] {
+				cs = append(cs, choice{name: n, p: s.parked[n]})
+			}
+		}
+	}
+	if len(cs) == 0 {
+		for _, a := range s.actions {
+			if a.LastResort && (a.Enabled == nil || a.Enabled()) {
+				cs = append(cs, choice{name: "env:" + a.Name, a: a})
+			}
 		}
 	}
 	return cs
@@ -487,18 +564,42 @@ func bubbleLeftovers() []string {
 	hideSync()
 	synctest.Wait()
 	showSync()
-	buf := make([]byte, 1<<20)
+	buf := make([]byte, 4<<20)
 	n := runtime.Stack(buf, true)
 	me := goid()
+	bubbleOf := func(header string) string {
+		i := strings.Index(header, "synctest bubble ")
+		if i < 0 {
+			return ""
+		}
+		rest := header[i+len("synctest bubble "):]
+		j := 0
+		for j < len(rest) && rest[j] >= '0' && rest[j] <= '9' {
+			j++
+		}
+		return rest[:j]
+	}
+	gs := strings.Split(string(buf[:n]), "\n\n")
+	// goroutines of earlier runs that leaked stay around in their own (dead)
+	// bubbles: only the current bubble counts
+	myBubble := ""
+	for _, g := range gs {
+		var id uint64
+		header, _, _ := strings.Cut(g, "\n")
+		fmt.Sscanf(header, "goroutine %d ", &id)
+		if id == me {
+			myBubble = bubbleOf(header)
+		}
+	}
 	var out []string
-	for _, g := range strings.Split(string(buf[:n]), "\n\n") {
+	for _, g := range gs {
 		lines := strings.Split(g, "\n")
-		if len(lines) == 0 || !strings.Contains(lines[0], "synctest bubble") {
+		if len(lines) == 0 || myBubble == "" || bubbleOf(lines[0]) != myBubble {
 			continue
 		}
 		var id uint64
 		fmt.Sscanf(lines[0], "goroutine %d ", &id)
-		if id == me {
+		if id == me || strings.Contains(g, "testingSynctestTest") {
 			continue
 		}
 		fn := ""
